@@ -9,7 +9,7 @@
    reproduces byte for byte. *)
 From Coq Require Import String NArith List Bool.
 From RC Require Import lib.Result model.Layout model.TrigTable model.RichCodec model.Str model.StrEditor model.Alloc
-  proofs.C04_proofs proofs.C08_proofs proofs.C09_proofs proofs.Save_strings proofs.Save_refs gen.GenTrig spec.SpecTrig gen.GenFlags gen.GenConsts.
+  proofs.C04_proofs proofs.C04_readback proofs.C08_proofs proofs.C09_proofs proofs.Save_strings proofs.Save_refs gen.GenTrig spec.SpecTrig gen.GenFlags gen.GenConsts.
 Import ListNotations.
 Local Open Scope N_scope.
 
@@ -65,3 +65,59 @@ Theorem C04_an_emitted_location_slot_carries_the_location_s_name :
     str_by_id L (vint "_string_id" slot) = l_name l.
 Proof. exact mrgn_slot_name_resolves. Qed.
 Print Assumptions C04_an_emitted_location_slot_carries_the_location_s_name.
+
+(* "Loading the saved map returns rich objects equal to the authored ones", one trigger entry of ANY of the 51 action types:
+   the record written for an authored action is read back, by the registered transcoder of that same type, as an action of
+   the same type with the same flags, each argument being the image of the authored one under decode-after-encode of its
+   codec (R is whatever relation the caller can establish for the codecs in play; the one computed field, the play time of
+   a sound, reads back as the computed time) *)
+Theorem C04_an_authored_action_is_read_back_as_itself :
+  forall cx (R : rarg -> rarg -> Prop) key args fl v,
+    encode_entry_of cx gen_action_table action_flags_codec action_record_fields (ERich key args fl) = Ok v ->
+    length fl = 5%nat ->
+    (forall te a c f x n, find_entry key gen_action_table = Some te -> In (a, c, f) (te_dec te) -> arg_get rarg a args = Ok x ->
+       enc_arg cx c x = Ok n -> exists x', dec_arg cx c n = Ok x' /\ R x x') ->
+    exists te args',
+      find_entry key gen_action_table = Some te /\
+      decode_entry_of cx gen_action_table "TriggerActionId" "_action_id" action_flags_codec action_record_fields v
+        = Ok (Some (ERich key args' fl)) /\
+      forall a c f, In (a, c, f) (te_dec te) ->
+        exists x', arg_get rarg a args' = Ok x' /\
+          ((exists x, arg_get rarg a args = Ok x /\ R x x') \/ (exists d, wav_duration cx args = Ok d /\ x' = AInt d)).
+Proof. exact authored_action_reads_back. Qed.
+Print Assumptions C04_an_authored_action_is_read_back_as_itself.
+
+(* ... and of any of the 22 condition types *)
+Theorem C04_an_authored_condition_is_read_back_as_itself :
+  forall cx (R : rarg -> rarg -> Prop) key args fl v,
+    encode_entry_of cx gen_condition_table condition_flags_codec condition_record_fields (ERich key args fl) = Ok v ->
+    length fl = 5%nat ->
+    (forall te a c f x n, find_entry key gen_condition_table = Some te -> In (a, c, f) (te_dec te) -> arg_get rarg a args = Ok x ->
+       enc_arg cx c x = Ok n -> exists x', dec_arg cx c n = Ok x' /\ R x x') ->
+    exists te args',
+      find_entry key gen_condition_table = Some te /\
+      decode_entry_of cx gen_condition_table "TriggerConditionId" "_condition_id" condition_flags_codec condition_record_fields v
+        = Ok (Some (ERich key args' fl)) /\
+      forall a c f, In (a, c, f) (te_dec te) ->
+        exists x', arg_get rarg a args' = Ok x' /\
+          ((exists x, arg_get rarg a args = Ok x /\ R x x') \/ (exists d, wav_duration cx args = Ok d /\ x' = AInt d)).
+Proof. exact authored_condition_reads_back. Qed.
+Print Assumptions C04_an_authored_condition_is_read_back_as_itself.
+
+(* ... with R equality whenever the arguments are plain numbers, enumeration members and strings: such an action is read
+   back with exactly the authored arguments *)
+Theorem C04_plain_actions_read_back_identically :
+  forall cx key args fl v,
+    encode_entry_of cx gen_action_table action_flags_codec action_record_fields (ERich key args fl) = Ok v ->
+    length fl = 5%nat -> (N.of_nat (length (sl_by_id (cx_str cx))) <= 1000000)%N ->
+    (forall te a c f x, find_entry key gen_action_table = Some te -> In (a, c, f) (te_dec te) -> arg_get rarg a args = Ok x ->
+       plain_codec c = true /\ arg_member c x) ->
+    exists te args',
+      find_entry key gen_action_table = Some te /\
+      decode_entry_of cx gen_action_table "TriggerActionId" "_action_id" action_flags_codec action_record_fields v
+        = Ok (Some (ERich key args' fl)) /\
+      forall a c f, In (a, c, f) (te_dec te) ->
+        arg_get rarg a args' = arg_get rarg a args \/
+        (exists d, wav_duration cx args = Ok d /\ arg_get rarg a args' = Ok (AInt d)).
+Proof. exact authored_plain_action_reads_back_identically. Qed.
+Print Assumptions C04_plain_actions_read_back_identically.
